@@ -19,6 +19,7 @@ func init() {
 			"R4 listener typestate: the acceptor is published only under the listener's mutex after testing the closed flag / bootstrap context, and otherwise closed again with an error; Close sets the closed flag and reads the acceptor under the same mutex; Accept is reached only after a successful publication; " +
 			"R5 accept loop: an Accept error ends the loop (server-closed when the context is done), a successful Accept is always served, tcp acceptor closes once and stops retrying when closed; R6 Listen registers every listener it returns and Close deregisters. " +
 			"ALSO: the closed flag is known false (branch facts) where the acceptor is published; Close's election and the wrappers' Close are imported (RULES.md). " +
+			"ALSO (round 7): CloseAll skips no channel; the registry entry is removed only on behalf of Listener.Close. " +
 			"DOES NOT DECIDE: that the OS unblocks Accept on close, timing of 'ends up closed', user transport factories.",
 		Assumptions: []string{"transport.Acceptor.Close unblocks Accept", "a holder is configured (default); with WithChannelHolder(nil) only R2 covers channels"},
 		Run:         runC13,
